@@ -541,6 +541,101 @@ func main() {
 			}
 		})
 
+		// A message that the application gives up on - Discard returns an error although the
+		// stream stays in sync (the caller's continuation handler fails on the last fragment; the
+		// transport reports a temporary error together with the message's last bytes; a control
+		// handler fails between the fragments) - and then a compressed message on the same reader:
+		// it is received as compressed, RSV1 cleared, payload exact; and a plain one after it.
+		r.Part("E2b-compressed-message-after-a-failed-discard", func(t *explore.T) {
+			errHandler := fmt.Errorf("handler: cannot take this now")
+			for _, side := range []streams.Side{streams.Server, streams.Client} {
+				for _, fault := range []string{"none", "continuation-handler-error-on-last-fragment", "temporary-error-with-last-bytes", "ping-handler-error-between-fragments"} {
+					for _, firstCompressed := range []bool{false, true} {
+						for _, chain := range []int{0, 1, 2} {
+							side, fault, firstCompressed, chain := side, fault, firstCompressed, chain
+							t.Do(func() string {
+								return fmt.Sprintf("%s first message (compressed=%v) discarded, fault=%s, extension chain #%d; then a compressed and a plain message", side, firstCompressed, fault, chain)
+							}, func() *explore.Fail {
+								mk := func(i int, op byte, fin bool, rsv byte, p string) []byte {
+									return streams.Frame{H: refmodel.Hdr{Fin: fin, Rsv: rsv, Op: op, Masked: side == streams.Server, Mask: streams.Masks[i%3]}, Payload: []byte(p)}.Wire()
+								}
+								r1 := byte(0)
+								if firstCompressed {
+									r1 = 4
+								}
+								data := mk(0, 1, false, r1, "ab")
+								if fault == "ping-handler-error-between-fragments" {
+									data = append(data, mk(1, 9, true, 0, "")...)
+								}
+								data = append(data, mk(2, 0, true, 0, "cd")...)
+								end1 := len(data)
+								data = append(data, mk(3, 2, true, 4, "COMP")...)
+								data = append(data, mk(4, 1, true, 0, "plain")...)
+								src := env.NewSrc(data)
+								if fault == "temporary-error-with-last-bytes" {
+									src.HiccupAt, src.HiccupErr, src.HiccupWithData = end1, env.TempErr{IsTimeout: true}, true
+								}
+								var ms wsflate.MessageState
+								identity := wsutil.RecvExtensionFunc(func(h ws.Header) (ws.Header, error) { return h, nil })
+								exts := [][]wsutil.RecvExtension{{&ms}, {&ms, identity}, {identity, &ms}}[chain]
+								rd := &wsutil.Reader{Source: src, State: drivers.State(side) | ws.StateExtended, Extensions: exts}
+								fired := false
+								rd.OnContinuation = func(h ws.Header, r io.Reader) error {
+									if fault == "continuation-handler-error-on-last-fragment" && h.Fin && !fired {
+										fired = true
+										io.Copy(io.Discard, r)
+										return errHandler
+									}
+									return nil
+								}
+								rd.OnIntermediate = func(h ws.Header, r io.Reader) error {
+									if fault == "ping-handler-error-between-fragments" && !fired {
+										fired = true
+										return errHandler
+									}
+									return nil
+								}
+								if _, err := rd.NextFrame(); err != nil {
+									return explore.Failf("harness-first-frame", "%v", err)
+								}
+								derr := rd.Discard()
+								if fault == "ping-handler-error-between-fragments" && derr != nil {
+									// the ping was consumed; the rest of the message is still to be skipped
+									derr = rd.Discard()
+								}
+								if fault == "none" && derr != nil {
+									return explore.Failf("Discard-error", "%v", derr)
+								}
+								if src.Off != end1 {
+									// the fault left the stream somewhere else than at the message boundary:
+									// nothing to ask of what follows
+									t.Outcome("not-at-boundary:" + fault)
+									return nil
+								}
+								h, err := rd.NextFrame()
+								if err != nil {
+									return explore.Failf("compressed-message-refused-after-failed-discard:"+fault, "NextFrame: %v (Discard had returned %v)", err, derr)
+								}
+								p, err := io.ReadAll(rd)
+								if err != nil || string(p) != "COMP" || h.Rsv != 0 || !ms.IsCompressed() {
+									return explore.Failf("compressed-message-wrong-after-failed-discard:"+fault, "rsv=%d compressed=%v payload=%q err=%v", h.Rsv, ms.IsCompressed(), p, err)
+								}
+								h, err = rd.NextFrame()
+								if err == nil {
+									p, err = io.ReadAll(rd)
+								}
+								if err != nil || string(p) != "plain" || ms.IsCompressed() {
+									return explore.Failf("plain-message-wrong-after-failed-discard:"+fault, "compressed=%v payload=%q err=%v", ms.IsCompressed(), p, err)
+								}
+								t.Outcome("received:" + fault)
+								return nil
+							})
+						}
+					}
+				}
+			}
+		})
+
 		r.Part("E3-round-trip", func(t *explore.T) {
 			pls := [][]byte{{}, []byte("a"), []byte("hello"), []byte(strings.Repeat("ab", 600)), bytes.Repeat([]byte{0, 1, 2, 3, 250, 251}, 40)}
 			for _, bufN := range []int{8 + 6, 64 + 6} {
